@@ -6,6 +6,11 @@ ids = [p['id'] for p in props]
 
 # id -> (category, technique, text, note, design_ref)
 CHECKS = {
+ 'C12': ('exploration',
+         'property-based testing against a reference model of the flow rule and attribute arrays',
+         'Grid, form and box layouts with 0-24 children and arbitrary optional row/column/span/alignment/stretch/minimum-size attachments are generated from choice sequences (both flows, valid and invalid column/row counts, indices at/over the bound and negative, conflicting values); a reference model written from the statement predicts every cell, span, alignment and array entry, or rejection; the .ui is decoded with an independent XML reader and compared; rejected cases need an error diagnostic inside an offending binding. Generated search with shrinking is the right level: the rule is a small state machine over child sequences that tests sample only at a handful of points.',
+         'Reference model and XML reader are part of the trusted base; fill values for indices nobody set and indices beyond 65535 are not compared; one known finding (rowMinimumHeight keyed by column) is recognised by an exact alternative model and listed in known_findings.json.',
+         'DESIGN.md section 3 C12'),
  'C19': ('exploration',
          'property-based testing: exhaustive + sampled comparison with an independent decoder and table',
          'All 3- and 4-digit hex strings are enumerated in three letter cases; 6/8-digit strings, all keywords in sampled (thorough: all) letter cases and 16 families of near misses are generated; each is compared with a decoder written from the statement and a keyword table committed as data; a sample goes end to end through QColor/QBrush/palette bindings and is read back from the .ui with an independent XML reader. Exhaustive where the space is small, sampled elsewhere; this is the right level for a pure string->value function.',
